@@ -1785,6 +1785,8 @@ func (e *Env) callExpr(n *ast.CallExpr) tv {
 			return tv{VInt{Ite(lt, a.v.(VInt).T, b.v.(VInt).T)}, a.t}
 		case "sum":
 			return e.sumExpr(n)
+		case "elemsat":
+			return tv{VBool{e.elemsAt(n)}, types.Typ[types.Bool]}
 		case "bbytes_eq", "bzero":
 			return e.bufBytesEq(id.Name, n)
 		case "sbytes_eq":
@@ -2435,4 +2437,171 @@ func (e *Env) bufBytesAssume(name string, n *ast.CallExpr) tv {
 	}
 	e.st.heap[buf.Obj] = &o
 	return tv{VBool{True}, types.Typ[types.Bool]}
+}
+
+// ---------- elemsat: every element of a list is encoded at its offset ----------
+
+// elemFact: an assumed elemsat(buf, base, xs, n, fam) - a statement about a snapshot of the buffer's contents.
+type elemFact struct {
+	mem   *ByteMem
+	boff  *Term // offset of the slice in its backing object
+	base  *Term
+	seq   int // SeqMem id of the element sequence (facts carry over to sequences appended to it)
+	n     *Term
+	fam   string
+	guard *Term
+}
+
+// elemsAt evaluates elemsat(buf, base, xs, n, fam): for every k < n the element xs[k] sits in buf at offset
+// base + sum(xs, k): fam "tl": big-endian type code at +0 and total length at +2 (actions, instructions, hello
+// elements); fam "l0": total length at +0 (buckets, flow-stats records). Assumed: recorded as a fact about the
+// buffer contents at that moment (later appends keep the prefix, which the byte memory model knows). Proved: at a
+// skolem index k, with every recorded fact about the same element list instantiated at k, together with the
+// monotonicity of sum (sum(xs,k) + size(xs[k]) <= sum(xs,n) for k < n; sizes are non-negative and sums do not wrap).
+func (e *Env) elemsAt(n *ast.CallExpr) *Term {
+	if len(n.Args) != 5 {
+		evalFail("elemsat(buf, base, xs, n, family) in %q", e.in)
+	}
+	bufv, ok := e.eval(n.Args[0]).v.(VSlice)
+	if !ok {
+		evalFail("elemsat: first argument is not a byte slice in %q", e.in)
+	}
+	base := e.intArg(n.Args[1])
+	xa := e.eval(n.Args[2])
+	xs, ok := xa.v.(VSlice)
+	if !ok {
+		evalFail("elemsat: third argument is not a slice in %q", e.in)
+	}
+	cnt := e.intArg(n.Args[3])
+	fam := ""
+	if bl, ok := n.Args[4].(*ast.BasicLit); ok {
+		fam = strings.Trim(bl.Value, "\"")
+	} else if id, ok := n.Args[4].(*ast.Ident); ok {
+		fam = id.Name
+	}
+	hdrSpec := ""
+	if strings.HasPrefix(fam, "h32:") {
+		hdrSpec = fam[4:]
+		if e.ex.L.Contracts.Specs[hdrSpec] == nil {
+			evalFail("elemsat: unknown header spec %q in %q", hdrSpec, e.in)
+		}
+	} else if fam != "tl" && fam != "l0" && fam != "t" {
+		evalFail("elemsat: unknown family %q in %q", fam, e.in)
+	}
+	if e.negated {
+		evalFail("elemsat in hypothesis position is not supported in %q", e.in)
+	}
+	if xs.Obj == 0 {
+		return True // nil list: no elements
+	}
+	so := e.st.heap[xs.Obj]
+	if so == nil || so.Kind != okSeq || !xs.Off.IsConst() || xs.Off.Val != 0 {
+		evalFail("elemsat over a re-sliced or non-sequence list in %q", e.in)
+	}
+	et := xa.t.Underlying().(*types.Slice).Elem()
+	var mem *ByteMem = bmZeros
+	if bufv.Obj != 0 {
+		bo := e.st.heap[bufv.Obj]
+		if bo == nil || bo.Kind != okBytes {
+			evalFail("elemsat: buffer is not a byte object in %q", e.in)
+		}
+		mem = bo.Mem
+	}
+	if e.assuming {
+		e.st.elemFacts = append(append([]elemFact{}, e.st.elemFacts...), elemFact{mem: mem, boff: bufv.Off, base: base, seq: so.Seq.id, n: cnt, fam: fam, guard: e.guard})
+		return True
+	}
+	k := Fresh("elemsat_k", BV(64))
+	if e.skolems != nil {
+		*e.skolems = append(*e.skolems, k)
+	}
+	sumK := e.sumTerm(xs, et, k)
+	read16 := func(m *ByteMem, at *Term) *Term {
+		return Concat(m.Read(at), m.Read(Add(at, Const(64, 1))))
+	}
+	at := func(m *ByteMem, boff, b *Term) func(Value) *Term {
+		return func(ev Value) *Term {
+			pos := Add(boff, Add(b, sumK))
+			sz := e.specApply("size", e.ex.L.Contracts.Specs["size"], []tv{{ev, et}})
+			sz64 := ZExt(sz.v.(VInt).T, 64)
+			szT := Extract(15, 0, sz64)
+			if fam == "l0" {
+				// the element holds at least its own length field
+				return And(Eq(read16(m, pos), szT), ULe(Const(64, 2), sz64))
+			}
+			if hdrSpec != "" {
+				// the element's first four bytes are the spec function's 32-bit header word
+				h := e.specApply(hdrSpec, e.ex.L.Contracts.Specs[hdrSpec], []tv{{ev, et}})
+				hT := Extract(31, 0, ZExt(h.v.(VInt).T, 64))
+				return And(Eq(Concat(read16(m, pos), read16(m, Add(pos, Const(64, 2)))), hT), ULe(Const(64, 4), sz64))
+			}
+			tc := e.specApply("typecode", e.ex.L.Contracts.Specs["typecode"], []tv{{ev, et}})
+			tcT := Extract(15, 0, ZExt(tc.v.(VInt).T, 64))
+			if fam == "t" {
+				// decoder side: the kind of element k is the one named at its offset; its size is what the cursor advanced by
+				return And(Eq(read16(m, pos), tcT), ULe(Const(64, 4), sz64))
+			}
+			return And(Eq(read16(m, pos), tcT), Eq(read16(m, Add(pos, Const(64, 2))), szT), ULe(Const(64, 4), sz64))
+		}
+	}
+	goal := e.seqMapAt(so, k, len(so.Seq.entries)-1, at(mem, bufv.Off, base))
+	hyp := True
+	for _, f := range e.st.elemFacts {
+		if f.fam != fam {
+			continue
+		}
+		// the fact speaks about this sequence, or about one it was appended to: below the parent's length the
+		// elements (and, by sumTerm's prefix axioms, the partial sums) are the parent's
+		below := True
+		found := false
+		for q := so.Seq; q != nil; q = q.parent {
+			if q.id == f.seq {
+				found = true
+				break
+			}
+			if q.parent == nil || q.parentLen == nil {
+				break
+			}
+			below = And(below, ULt(k, q.parentLen), ULe(f.n, q.parentLen))
+		}
+		if !found {
+			continue
+		}
+		sumN := e.sumTerm(xs, et, f.n)
+		inst := e.seqMapAt(so, k, len(so.Seq.entries)-1, func(ev Value) *Term {
+			sz := e.specApply("size", e.ex.L.Contracts.Specs["size"], []tv{{ev, et}})
+			szT := ZExt(sz.v.(VInt).T, 64)
+			return And(at(f.mem, f.boff, f.base)(ev), ULe(Add(sumK, szT), sumN), ULe(szT, Const(64, 1<<50)))
+		})
+		hyp = And(hyp, Implies(And(f.guard, ULt(k, f.n), below), inst))
+	}
+	return Implies(And(ULt(k, cnt), hyp), goal)
+}
+
+// seqMapAt: f applied to the element at symbolic index k, by cases over the stored entries, then the base.
+func (e *Env) seqMapAt(o *Object, k *Term, upto int, f func(Value) *Term) *Term {
+	q := o.Seq
+	if upto >= 0 {
+		en := q.entries[upto]
+		return Ite(Eq(en.idx, k), f(en.val), e.seqMapAt(o, k, upto-1, f))
+	}
+	if q.zero {
+		return f(zeroValue(q.elemT))
+	}
+	// symbolic elements already materialised at other index terms are the same element when the indices are equal
+	cur := e.st.heap[o.ID]
+	memo := append([]seqEntry{}, cur.Seq.memo...)
+	res := f(e.st.seqReadFrom(cur, k, -1))
+	for _, m := range memo {
+		if m.idx == k {
+			continue
+		}
+		// elements materialised at the skolem index of another universal clause need no case of their own:
+		// leaving the case out only forgets that they might be the same element (fewer facts, still sound)
+		if m.idx.Op == "var" && (strings.HasPrefix(m.idx.Name, "elemsat_k") || (strings.HasPrefix(m.idx.Name, "all") && strings.Contains(m.idx.Name, "_k"))) {
+			continue
+		}
+		res = Ite(Eq(m.idx, k), f(m.val), res)
+	}
+	return res
 }
